@@ -279,7 +279,9 @@ def gen_value(rng, t, pool, pos, depth, hostile_p):
                 pos.append((("leaf" if b[0] == "hook" else b[0]), pid))
         return {"$r": pid}
     if k == "cont":
-        return [gen_value(rng, t[1], pool, pos, depth + 1, hostile_p) for _ in range(rng.choice([1, 2, 3]))]
+        items = [gen_value(rng, t[1], pool, pos, depth + 1, hostile_p) for _ in range(rng.choice([1, 2, 3]))]
+        # (the 'contains' check walks the value itself: its iteration is a fault site too)
+        return {"$fl": items} if depth >= 1 and rng.random() < 0.3 else items
     if k in ("list", "set", "fset", "tup"):
         items = [gen_value(rng, t[1], pool, pos, depth + 1, hostile_p) for _ in range(rng.choice([0, 1, 2, 2, 3, 5]))]
         if depth >= 1 and rng.random() < 0.25:
@@ -351,7 +353,7 @@ def generate(rng, tier):
             plan["dup"] = {"al_" + f["name"]: {"$ho": 2}}
         if api in ("schema", "dataclass") and rng.random() < 0.12:
             fields.append({"name": "dsc", "type": ["disc"]})
-            inp["dsc"] = rng.choice([{"kind": "a"}, {"kind": {"$unhashable": 1}}, {"kind": {"$ho": 3}}, {"kind": "zz"}, 5, {"kind": {"$hb": 1}}, {"kind": {"$hb": 1}},
+            inp["dsc"] = rng.choice([{"kind": "a"}, {"kind": {"$unhashable": 1}}, {"kind": {"$ho": 3}}, {"kind": "zz"}, 5, {"kind": {"$hb": 1}}, {"kind": {"$hb": 1}}, {"$fd": {"kind": "a"}}, {"$fd": {"kind": "b"}},
                                      {"$fl": [["kind", "a"]]}, {"$fl": [["kind", "a"]]}, {"$fl": [["kind", "b"]]}, {"$conho": ["olen", 7]},
                                      {"$con": ["olen", N_HOSTILE - rng.choice([1, 2, 3, 4])]}])
         plan["fields"] = fields
@@ -579,7 +581,10 @@ def _has_raw(x, depth=0):
         return True
     if isinstance(x, dict):
         return any(_has_raw(k, depth + 1) or _has_raw(v, depth + 1) for k, v in list(dict.items(x)))
-    if isinstance(x, (list, tuple, set, frozenset)):
+    if isinstance(x, list):
+        # (a faulty input list may have reached this place as it is - 'contains' does not convert -: read it without its own protocol)
+        return any(_has_raw(v, depth + 1) for v in list.__iter__(x))
+    if isinstance(x, (tuple, set, frozenset)):
         return any(_has_raw(v, depth + 1) for v in x)
     d = getattr(x, "__dict__", None)
     if isinstance(d, dict) and hasattr(type(x), "__parser__"):
